@@ -603,6 +603,9 @@ def eliminate(facts, cls, info):
     return done
 
 
+ANCHORED = {"CDNS::CdnsEncoder": ("m_p", "m_avail", "m_buffer"), "CDNS::CdnsDecoder": ("m_p", "m_end", "m_buffer")}
+
+
 def apply(facts):
     """run over every class of the library; facts.derived[cls] keeps the verdicts for the rules"""
     facts.derived = {}
@@ -626,6 +629,11 @@ def apply(facts):
                     family.add(q)
                     changed = True
         methods = [f for f in facts.functions.values() if f.get("cls") in family and f.get("body") is not None and not f.get("flattened")]
+        # counters kept in step with another member (twins.py); members the rules are anchored on are never rewritten away
+        from . import twins
+        tw = twins.analyse(facts, cls, methods, keep=ANCHORED.get(cls, ()))
+        if tw:
+            n += twins.eliminate(facts, cls, methods, tw)
         lazy = analyse_lazy(facts, cls, methods)
         if lazy is not None:
             info["lazy"] = lazy
